@@ -3233,12 +3233,10 @@ let lc_num_church_shr =
     ((Var (S (S O))), (Var (S (S (S (S O))))))))))))), (Abs (Var (S (S
     O)))))), (Abs (Var (S O)))))))))), (Var (S (S O))))))), (Var (S (S (S
     O)))))), (Var (S (S O))))))), (Var (S (S O)))))))))), (Abs (Var (S
-    O)))))))))), (Var (S (S O))))), (App ((App ((Abs (Abs (App ((App ((App
-    ((Abs (App ((App ((Var (S O)), (Abs (Abs (Abs (Var (S O))))))), (Abs (Abs
-    (Var (S (S O)))))))), (Var (S O)))), (Abs (Abs (App ((Var (S (S O))),
-    (Var (S O)))))))), (App ((Var (S O)), (Var (S (S O))))))))), (App ((Abs
-    (Abs (Abs (App ((Var (S (S O))), (App ((App ((Var (S (S (S O)))), (Var (S
-    (S O))))), (Var (S O))))))))), (Abs (Abs (App ((Var (S (S O))), (Var (S
+    O)))))))))), (Var (S (S O))))), (App ((App ((Abs (Abs (Abs (App ((Var (S
+    (S (S O)))), (App ((Var (S (S O))), (Var (S O))))))))), (App ((Abs (Abs
+    (Abs (App ((Var (S (S O))), (App ((App ((Var (S (S (S O)))), (Var (S (S
+    O))))), (Var (S O))))))))), (Abs (Abs (App ((Var (S (S O))), (Var (S
     O)))))))))), (Var (S O)))))))))
 
 (** val lc_num_church_is_even : term **)
